@@ -37,6 +37,13 @@ def workload(model, proto, rng, finite, align):
         delta = rng.randint(0, 48)
         pad_len = sw.BUF - hdr_len(schema) - 3 - delta
     vals = sw.gen_values(env, ns, proto, rng, finite=finite, items=(2, 7), pad_len=pad_len)
+    for k_, (sn_, _, _) in enumerate(proto.steps):
+        if sn_ == "steerlongvec" and rng.fork("longvec").chance(0.5):
+            # vectors longer than any chunk size a reader may use internally (65536 elements and beyond), each followed by a
+            # shorter one: what a reused destination still holds from the item before must not show
+            lr = rng.fork("longvec2")
+            lens = lr.sample([100000, 70000, 0, 66000, 90000, 65536, 65537, 3, 131073], lr.randint(3, 5))
+            vals[k_] = [[(j * 7 + n) % 251 for j in range(n)] for n in lens]
     er = rng.fork("empty")
     for k_, (_, _, st_) in enumerate(proto.steps):
         if st_ and er.chance(0.2):
@@ -207,8 +214,11 @@ def py_side(model, proto, rng, quick, stats, viols, ctx):
         lb = sw.LogBytesIO(data)
         collect = r.chance(0.5)
         stats["py_read_collect_then_inspect" if collect else "py_read_item_by_item"] = stats.get("py_read_collect_then_inspect" if collect else "py_read_item_by_item", 0) + 1
-        with runner.time_limit(30):
-            d, err, closed = P.read_all(model, proto, "binary", lb, collect=collect)
+        try:
+            with runner.time_limit(30):
+                d, err, closed = P.read_all(model, proto, "binary", lb, collect=collect)
+        except runner.Hang as e:
+            d, err, closed = [], RuntimeError("reader did not terminate: %s" % e), False
         marks = set(codec.marks)
         if any(pos > 0 and pos < len(data) and pos not in marks for pos, n in lb.fills):
             stats["value_straddles_refill"] = stats.get("value_straddles_refill", 0) + 1
@@ -476,6 +486,8 @@ def model_task(task, ybin, root):
     first.steps.append(("steerpodpad", M.Named("SteerPodPad"), True))
     first.steps.append(("steerpodflat", M.Named("SteerPodFlat"), True))
     first.steps.append(("steernum", M.Prim(rng.choice(["float32", "int16", "uint64", "float64"])), True))
+    if want_cpp:
+        first.steps.append(("steerlongvec", M.Vec(M.Prim("uint8")), True))
     # items that are numeric arrays: the readers may hand out views of their staging buffer
     first.steps.append(("steerarr", M.Arr(M.Prim(rng.choice(["float32", "int16", "float64", "complexfloat32"])), rng.choice([None, 1, 2, ((None, 3),)])), True))
     model = P.PyModel(pkg, ybin, root, want_cpp=want_cpp, cpp_opts=C.CPP_OPTS)
